@@ -32,4 +32,5 @@ def run(idx, rep, tier):
     mirror.r_tournament(idx, rep)
     mirror.r_boxface(idx, rep)
     misc2.r_dupcond(idx, rep, [m.name for m in idx.lib_modules()], floor=3)
+    degree.r_tolunit(idx, rep, [m.name for m in idx.lib_modules() if "hydroelastic" not in m.name and "visual" not in m.name and "plot" not in m.name and "benchmark" not in m.name], floor=12, face_arrays=degree.EPA_FACES)
     unpack.r_unpack(idx, rep, floor=88)
